@@ -714,7 +714,24 @@ def directed(tier):
         op['label'] = lab
         op['attrs'] = [a for a in op['attrs'] if a['n'] != 'Object Group']
         setup.append({'actor': 0, 'ver': [1, 2], 'items': [op]})
-    return [{'actors': [{'cn': 'alice'}], 'seed': 5, 'setup': setup,
+    # one legal request of more than a mebibyte, then an ordinary one, over
+    # coarse chunk plans only (with byte-sized chunks the session's own
+    # `message += chunk` makes such a frame cost minutes): read to its end,
+    # answered once, the next request served normally
+    big = {'actors': [{'cn': 'alice'}], 'seed': 6, 'setup': setup,
+           'kind': 'stream', 'driver': 'connection', 'chunks_a': None,
+           'chunks_b': [4096] * 400, 'fault': None,
+           'stream': [{'req': {'actor': 0, 'ver': [1, 2], 'items': [{
+               'op': 'Register', 'otype': 'OpaqueData', 'attrs': [],
+               'obj': {'odtype': 0x80000000,
+                       'value': 'rep:a0d07c7c:1200000'}}]}, 'mut': None},
+               {'req': {'actor': 0, 'ver': [1, 2], 'items': [
+                   {'op': 'GetAttributes', 'uid': '@k',
+                    'names': ['State']}]}, 'mut': None}]}
+    # (thorough tier only: PyKMIP decodes a byte string byte by byte,
+    # re-slicing its buffer each time - tens of seconds per decode here)
+    return ([big] if tier == 'thorough' else []) + [{
+             'actors': [{'cn': 'alice'}], 'seed': 5, 'setup': setup,
              'kind': 'stream', 'driver': 'frames', 'chunks_a': None,
              'chunks_b': [1] * 400, 'fault': None,
              'stream': [{'req': {'actor': 0, 'ver': [2, 0], 'items': [
